@@ -89,6 +89,9 @@ pub struct Base {
     pub pczt: Pczt,
     /// Transaction id computed from the builder's `PcztParts` directly (no pczt-crate code involved).
     pub txid_parts: TxId,
+    /// Shielded and per-input transparent (SIGHASH_ALL) signature hashes, computed the same way.
+    pub sighash_parts: [u8; 32],
+    pub t_sighash_parts: Vec<[u8; 32]>,
     pub v6: bool,
     /// Secret keys able to sign each transparent input (P2PKH: 1, P2SH 2-of-3: 3).
     pub t_sks: Vec<Vec<secp256k1::SecretKey>>,
@@ -111,6 +114,10 @@ pub struct Base {
     pub o_out_idx: Vec<usize>,
     pub i_out_idx: Vec<usize>,
     pub memo: [u8; 512],
+    /// Per action: does `replace_enc_ciphertext_with_decrypted_memo_plaintext` recover a memo (its
+    /// documentation allows it to leave undecryptable outputs, e.g. padding, unchanged)? Observed once.
+    pub o_memo_ok: Vec<bool>,
+    pub i_memo_ok: Vec<bool>,
     pub p2sh: Vec<bool>,
     /// Deterministic signature cache: (key debug string, variant) -> signature bytes.
     pub sig_cache: Mutex<BTreeMap<(String, u8), Vec<u8>>>,
@@ -721,7 +728,7 @@ fn populate_deferred(p: &Plan, sink_value: u64) -> Result<DeferredPcztBuilder<Lo
 
 /// Transaction id from the builder's parts only (transparent / sapling / orchard crates'
 /// `extract_effects` + `TransactionData` digests); no `pczt` crate code.
-pub fn txid_from_parts(parts: &PcztParts<LocalNetwork>) -> TxId {
+pub fn txid_from_parts(parts: &PcztParts<LocalNetwork>) -> (TxId, [u8; 32], Vec<[u8; 32]>) {
     let t = parts.transparent.as_ref().and_then(|b| b.extract_effects().expect("effects"));
     let s = parts.sapling.as_ref().and_then(|b| b.extract_effects::<ZatBalance>().expect("effects"));
     let o = parts.orchard.as_ref().and_then(|b| b.extract_effects::<ZatBalance>().expect("effects"));
@@ -734,7 +741,27 @@ pub fn txid_from_parts(parts: &PcztParts<LocalNetwork>) -> TxId {
         }
     };
     let d = txd.digest(TxIdDigester);
-    to_txid(txd.version(), txd.consensus_branch_id(), &d)
+    use zcash_primitives::transaction::sighash::SignableInput;
+    use zcash_primitives::transaction::{sighash_v5::v5_signature_hash, sighash_v6::v6_signature_hash};
+    let signature_hash = |txd: &TransactionData<pczt::EffectsOnly>, si: &SignableInput, d| -> [u8; 32] {
+        match txd.version() {
+            TxVersion::V6 => v6_signature_hash(txd, si, d).as_ref().try_into().unwrap(),
+            _ => v5_signature_hash(txd, si, d).as_ref().try_into().unwrap(),
+        }
+    };
+    let shielded: [u8; 32] = signature_hash(&txd, &SignableInput::Shielded, &d);
+    let transparent = parts
+        .transparent
+        .as_ref()
+        .map(|t| {
+            t.inputs()
+                .iter()
+                .enumerate()
+                .map(|(i, inp)| inp.with_signable_input(i, |si| signature_hash(&txd, &SignableInput::Transparent(si), &d)))
+                .collect()
+        })
+        .unwrap_or_default();
+    (to_txid(txd.version(), txd.consensus_branch_id(), &d), shielded, transparent)
 }
 
 pub fn build_base(seed: u64, idx: u32) -> Result<Base, String> {
@@ -785,7 +812,7 @@ pub fn build_base(seed: u64, idx: u32) -> Result<Base, String> {
             .map_err(|e| format!("build_for_pczt: {e:?}"))?
     };
     let PcztResult { pczt_parts, sapling_meta, orchard_meta, ironwood_meta } = result;
-    let txid_parts = txid_from_parts(&pczt_parts);
+    let (txid_parts, sighash_parts, t_sighash_parts) = txid_from_parts(&pczt_parts);
     let pre_io = Creator::build_from_parts(pczt_parts).ok_or_else(|| "build_from_parts returned None".to_string())?;
     let pczt = IoFinalizer::new(pre_io.clone()).finalize_io().map_err(|e| format!("finalize_io: {e:?}"))?;
 
@@ -795,8 +822,31 @@ pub fn build_base(seed: u64, idx: u32) -> Result<Base, String> {
     let deferred = plan.shape.fmt == Fmt::V6Deferred;
     let o_out_idx: Vec<usize> = (0..plan.o_outs.len()).map(|i| orchard_meta.output_action_index(i).unwrap()).collect();
     let i_out_idx: Vec<usize> = (0..plan.i_outs.len()).map(|i| ironwood_meta.output_action_index(i).unwrap()).collect();
+    let memo_ok = |ironwood: bool| -> Vec<bool> {
+        use pczt::roles::redactor::Redactor;
+        let red = Redactor::new(pczt.clone());
+        let f = |version| {
+            move |mut o: pczt::roles::redactor::orchard::OrchardRedactor<'_>| {
+                o.redact_actions(|mut a| a.replace_enc_ciphertext_with_decrypted_memo_plaintext(version));
+            }
+        };
+        let p = if ironwood {
+            red.redact_ironwood_with(f(orchard::note::NoteVersion::V3)).finish()
+        } else {
+            red.redact_orchard_with(f(orchard::note::NoteVersion::V2)).finish()
+        };
+        let bundle = if ironwood { p.ironwood() } else { p.orchard() };
+        bundle
+            .actions()
+            .iter()
+            .map(|a| matches!(a.output().enc_ciphertext(), pczt::orchard::EncCiphertext::MemoPlaintext(_)))
+            .collect()
+    };
+    let (o_memo_ok, i_memo_ok) = (memo_ok(false), memo_ok(true));
     Ok(Base {
         idx,
+        o_memo_ok,
+        i_memo_ok,
         v6: plan.v6,
         t_sks: plan.t_ins.iter().map(|t| t.sks.clone()).collect(),
         s_extsk: (!plan.s_notes.is_empty()).then(|| plan.s_extsk.clone()),
@@ -827,6 +877,8 @@ pub fn build_base(seed: u64, idx: u32) -> Result<Base, String> {
         pre_io,
         pczt,
         txid_parts,
+        sighash_parts,
+        t_sighash_parts,
         build_ms: t0.elapsed().as_millis() as u64,
     })
 }
